@@ -48,6 +48,9 @@ ASSUMPTIONS = [
 TRUSTED = ["harness/cluster.py applies PATCH as RFC 7386 merge-patch (cross-checked against Payload.merge_patch by C08)",
            "the capture shim around koreo.resource_function.reconcile.validate_match only deep-copies its arguments"]
 
+SIG_ANNOTATIONS = ("metadata / metadata.annotations retyped to a truthy non-map: _extract_last_applied raises "
+                   "AttributeError, no correction is made")
+
 S = "x-koreo-compare-as-set"
 M = "x-koreo-compare-as-map"
 L = "x-koreo-compare-last-applied"
@@ -957,15 +960,19 @@ def run_flow_case(ctx: Ctx, case, cases, terms, oracle=True):
             [m["method"] for m in p2["mutations"]] == ["PATCH"]:
         p3 = one_pass(fn, cl)
     ctx.count(f"flow:{case['policy']}:{p2['outcome']['cls']}")
-    if not p2["validate_args"]:
+    if not p2["validate_args"] and not (case.get("dev") is not None and p2["outcome"]["cls"] == "Raised"):
         ctx.count("flow:no-validate-call")
         return p2
-    va = p2["validate_args"][0]
+    va = p2["validate_args"][0] if p2["validate_args"] else None
     if oracle and case.get("dev") is not None:
-        why = flow_oracle(case, p2, p3, va["t"])
+        why = flow_oracle(case, p2, p3, va["t"] if va else None)
         if why:
             kind = case["dev"]["kind"]
-            if why[0] == "raises":
+            path_keys = [st[1] for st in case["dev"]["path"]]
+            if (why[0] == "raises" and p2["outcome"]["exc"] == "AttributeError" and not p2["validate_args"]
+                    and path_keys in (["metadata"], ["metadata", "annotations"])):
+                sig = SIG_ANNOTATIONS
+            elif why[0] == "raises":
                 sig = deviation_signature(kind, p2["outcome"]["exc"], "flow")
             elif why[0] == "calls" and not p2["mutations"] and case["policy"] != "never":
                 sig = deviation_signature(kind, "match", "flow")
@@ -976,6 +983,9 @@ def run_flow_case(ctx: Ctx, case, cases, terms, oracle=True):
                                                   "next_pass": p3 and {"outcome": p3["outcome"], "mutations": p3["mutations"]}},
                              expected="exactly the action the update policy prescribes"))
     ctx.note_case({k: case[k] for k in ("body", "policy", "owned", "dev")}, nontrivial=True)
+    if va is None:
+        ctx.count("flow:raised-before-comparator")
+        return p2
     if flow_in_model(va):
         cases.append(case)
         terms.append(tail_term(case, va, p2))
@@ -1025,9 +1035,32 @@ def created_object(ctx, body, owned):
     return stored(cl)
 
 
+def fixed_flows(ctx: Ctx, cases, terms):
+    """target-specified metadata.annotations retyped in the live object (see SIG_ANNOTATIONS)"""
+    body = {"metadata": {"annotations": {"note": "n"}}, "spec": {"a": 1}}
+    obj = created_object(ctx, body, True)
+    if obj is None:
+        return
+    for policy in ("patch", "recreate", "never"):
+        for bad in ("x", ["a"], 7):
+            live = copy.deepcopy(obj)
+            live["metadata"]["annotations"] = bad
+            run_flow_case(ctx, {"kind": "flow", "body": body, "policy": policy, "delay": 5, "owned": True, "live": live,
+                                "dev": {"path": [["k", "metadata"], ["k", "annotations"]], "kind": "dict-retype"}},
+                          cases, terms)
+        # falsy values are read as "no annotation": detected and corrected
+        for ok in ([], None, 0, ""):
+            live = copy.deepcopy(obj)
+            live["metadata"]["annotations"] = ok
+            run_flow_case(ctx, {"kind": "flow", "body": body, "policy": policy, "delay": 5, "owned": True, "live": live,
+                                "dev": {"path": [["k", "metadata"], ["k", "annotations"]], "kind": "dict-retype"}},
+                          cases, terms)
+
+
 def run_flow(ctx: Ctx, cases, terms):
     rng = ctx.rng
     quick = ctx.quick()
+    fixed_flows(ctx, cases, terms)
     nbodies = 10 if quick else 80
     per_body = 14 if quick else 50
     for bi in range(nbodies):
